@@ -7,6 +7,7 @@ placement on the name's line) - and negative variants that must not suppress any
 from __future__ import annotations
 
 import itertools
+import re
 
 from mc import core
 from mc.gen import canon, oracle, programs
@@ -33,6 +34,7 @@ NEG_HASH = ["# see nocl", "# no cl", "# xnocl"]
 
 # characters that are line ends for str.splitlines() but not for the lexers (form feed, U+2028, NEL): sitting between the name and
 # the marker (in a string literal of a default argument, or in a block comment) they must not move the marker to "another line"
+WIDE = 70_000
 SEPARATORS = ["\x0c", "\u2028", "\x85"]
 
 
@@ -49,6 +51,7 @@ def variants(lang):
         out.append(("string:# nocl", False, "string", '"# nocl"'))
         for ch in SEPARATORS:
             out.append((f"septrail:{ch!r}", True, "septrail", ch))
+        out.append(("septrail:wide", True, "septrail", "w" * WIDE))
         return out
     for c in POS_LINE + POS_BLOCK:
         out.append((f"trail:{c}", True, "trail", c))
@@ -66,6 +69,7 @@ def variants(lang):
     out.append(("string:// nocl", False, "string", '"// nocl"'))
     for ch in SEPARATORS:
         out.append((f"septrail:{ch!r}", True, "septrail", ch))
+    out.append(("septrail:wide", True, "septrail", "w" * WIDE))  # the marker starts beyond column 65 536
     return out
 
 
@@ -103,6 +107,10 @@ def apply_marker(lang, text, funcs, names, kind, payload):
     for n in names:
         fr = by[n]
         ln = fr["start"][0] - 1
+        # the marker belongs on the line of the function's NAME, which need not be the line its header starts on
+        short = n.split("::")[-1]
+        while ln < len(lines) - 1 and not re.search(r"(?<![A-Za-z0-9_])" + re.escape(short) + r"(?![A-Za-z0-9_])", lines[ln]):
+            ln += 1
         line = lines[ln]
         if kind == "trail":
             lines[ln] = line + "  " + payload
